@@ -148,3 +148,36 @@ func Harness_K17_Suffix() {
 	}
 	vrtReach("K17/suffix/end")
 }
+
+// Harness_K17_Kind: a custom-type field is of the custom kind whatever else it is (repeated, map,
+// message): all three generators dispatch on the kind, so this is what routes a field to the hooks.
+func Harness_K17_Kind() {
+	f := &Field{IsCustomType: vrtBool(), IsMap: vrtBool(), IsRepeated: vrtBool()}
+	f.IsMessage = vrtBool()
+	mv := &Field{}
+	mv.IsMessage = vrtBool()
+	f.MapValueField = mv
+	k := f.getKind()
+	vrtAssert("C17/K17/custom-kind-iff-custom-type", (k == CustomKind) == f.IsCustomType)
+	if !f.IsCustomType {
+		switch {
+		case f.IsMap:
+			want := PrimitiveMapKind
+			if mv.IsMessage {
+				want = ObjectMapKind
+			}
+			vrtAssert("C17/K17/kind-of-ordinary-map", k == want)
+		case f.IsRepeated:
+			want := PrimitiveListKind
+			if f.IsMessage {
+				want = ObjectListKind
+			}
+			vrtAssert("C17/K17/kind-of-ordinary-list", k == want)
+		case f.IsMessage:
+			vrtAssert("C17/K17/kind-of-ordinary-message", k == ObjectKind)
+		default:
+			vrtAssert("C17/K17/kind-of-ordinary-scalar", k == PrimitiveKind)
+		}
+	}
+	vrtReach("K17/kind/end")
+}
